@@ -29,6 +29,18 @@ CLAIMED = {
         note='floats as reals (A-real); compiled overlap kernels (.so) not covered by proof'),
 }
 
+CLAIMED['C10'] = dict(
+    engine='effects', category='other',
+    technique='contract-based frame verification (modifies={} for every public entry point) by a '
+              'modular alias/write-effect analysis; bounded snapshot contracts as stand-in',
+    text='One frame obligation per public entry point of photutils (~800): no in-place write '
+         'reaches a caller-supplied object (parameters and constructor-supplied fields), callers '
+         'checked against callee summaries. Level "other" because three obligations are refuted '
+         '(known finding F22, Ellipse geometry) so discharged < obligations; everything else is '
+         'discharged. Bounded deep-snapshot driver confirms on real runs.',
+    note='sound relative to the numpy/astropy aliasing tables and declared frames listed in the '
+         'evidence; external callees assumed not to mutate arguments (A-ext)')
+
 _PENDING = 'check not built yet (work in progress in this session); see DESIGN.md section 10'
 NOT_APPLICABLE = {f'C{i:02d}': _PENDING for i in range(1, 21) if f'C{i:02d}' not in CLAIMED}
 
